@@ -2,10 +2,22 @@
 """Detection demonstration: apply each hand-made mutant (a realistic property-breaking edit) to /repo's
 working tree, run the named checks (quick tier), expect exit 1 + VIOLATION; revert.  `--tests` also runs
 the repository's own suite on the mutant (it must still pass for the mutant to count).
-usage: tools/mutants.py [--tests] [name ...]"""
+usage: tools/mutants.py [--tests] [--isolated] [name ...]
+--isolated: work on copies /tmp/mut/repo and /tmp/mut/verif (own target dirs), so that /repo and /verif stay
+usable while the mutants run; the copies are refreshed from the current trees first."""
 import json, os, subprocess, sys, time
 V = os.path.dirname(os.path.dirname(os.path.abspath(__file__)))
-R = "/repo/rasn-compiler/src/"
+REPO = "/repo"
+ISO = "/tmp/mut"
+if "--isolated" in sys.argv:
+    os.makedirs(ISO, exist_ok=True)
+    subprocess.run(f"rsync -a --delete --exclude target --exclude .git /repo/ {ISO}/repo/ && rsync -a --delete --exclude target --exclude replays --exclude .git --exclude .work {V}/ {ISO}/verif/", shell=True, check=True)
+    subprocess.run(["sed", "-i", f's|path = "/repo/rasn-compiler"|path = "{ISO}/repo/rasn-compiler"|', f"{ISO}/verif/harness/Cargo.toml"], check=True)
+    V = f"{ISO}/verif"
+    REPO = f"{ISO}/repo"
+    os.environ["VERIF_REPO"] = REPO
+    os.environ["VERIF_DIR"] = V
+R = REPO + "/rasn-compiler/src/"
 M = json.load(open(os.path.join(V, "mutants", "mutants.json")))
 
 def sh(cmd, **kw):
@@ -16,7 +28,11 @@ def main():
     tests = "--tests" in args
     names = [a for a in args if not a.startswith("--")]
     results = []
-    assert sh("git -C /repo status --porcelain --untracked-files=no").stdout.strip() == "", "repo working tree not clean"
+    if REPO == "/repo":
+        assert sh("git -C /repo status --porcelain --untracked-files=no").stdout.strip() == "", "repo working tree not clean"
+    else:
+        r = sh("cd %s && ./check --setup" % V)
+        assert r.returncode == 0, r.stdout[-2000:]
     for m in M:
         if names and m["name"] not in names: continue
         edits = m.get("edits") or [{"file": m["file"], "old": m["old"], "new": m["new"]}]
@@ -38,7 +54,7 @@ def main():
                 open(path, "w").write(txt)
             row = {"name": m["name"], "expect": m["props"], "neutral": m.get("neutral", False)}
             if tests:
-                r = sh("cd /repo && cargo test --workspace --no-fail-fast --offline 2>&1 | grep -E '^test result' | awk '{p+=$4; f+=$6} END {print p, f}'")
+                r = sh("cd " + REPO + " && cargo test --workspace --no-fail-fast --offline 2>&1 | grep -E '^test result' | awk '{p+=$4; f+=$6} END {print p, f}'")
                 row["suite"] = r.stdout.strip()
             for pid in m["props"]:
                 t = time.time()
@@ -52,7 +68,8 @@ def main():
         finally:
             for path, txt in originals.items():
                 open(path, "w").write(txt)
-    sh("git -C /repo checkout -- .")
+    if REPO == "/repo":
+        sh("git -C /repo checkout -- .")
     bad = [r for r in results for p in r["expect"] if (r[p]["exit"] != (0 if r["neutral"] else 1))]
     print("mutants run: %d, unexpected outcomes: %d" % (len(results), len(bad)))
     return 1 if bad else 0
